@@ -53,6 +53,14 @@ CHECKS = {
                 text="every history over the union of the C01/C03/C05/C08/C15/C18/C19 alphabets and the query/pagination menu produces identical normalised responses through the v1 and the v2 client at every step",
                 note="InvalidParameter (SDK v1 client-side validation) and ValidationException are one class; ProjectionType and other fields outside the normalised response are not compared; ReturnValuesOnConditionCheckFailure is not expressible in the v1 request types",
                 ref="DESIGN.md 3/C17"),
+    "C06": dict(engine="E2", technique=E2,
+                text="every atomic condition form x every path spelling x every typing of its operands (ten types and absence) and every boolean tree up to 3 (4) leaves evaluates on the real interpreter to an outcome the reference three-valued evaluator accepts, without panic and without modifying the item",
+                note="two or three values per type; acceptance sets where the property is silent (DESIGN.md Appendix A); direct interpreter.Language.Match calls (client-level wiring of conditions, filters and key conditions is exercised by C02/C05)",
+                ref="DESIGN.md 3/C06"),
+    "C07": dict(engine="E2", technique=E2,
+                text="every update program of one or two (thorough: three) actions over the action alphabet, on a typed item and on a key-only item, through interpreter.Language.Update and through UpdateItem of both SDK clients (existing and absent key), yields exactly the reference result (targets set, removed attributes gone, every untargeted attribute identical) or is rejected without change; never a panic",
+                note="overlapping target paths are outside the alphabet; numbers up to 15 digits here (exactness is C12's); three recorded findings pinned by repository tests are attributed by defect models",
+                ref="DESIGN.md 3/C07"),
 }
 
 PENDING = {}
